@@ -15,6 +15,64 @@ pub fn show_bytes(b: &[u8]) -> String {
     s
 }
 
+/// Compile-time focus (Kani builds): when the environment variable SV_FOCUS is set while the
+/// harness crate is compiled, only assertions whose label starts with it stay active.  The driver
+/// uses this to obtain a counterexample for the property it is deciding from a harness that
+/// carries assertions of several properties.
+pub const FOCUS: Option<&str> = option_env!("SV_FOCUS");
+
+pub const fn focus_match(msg: &str) -> bool {
+    match FOCUS {
+        None => true,
+        Some(f) => {
+            let (m, f) = (msg.as_bytes(), f.as_bytes());
+            if f.is_empty() {
+                return true;
+            }
+            if m.len() < f.len() {
+                return false;
+            }
+            let mut i = 0;
+            while i < f.len() {
+                if m[i] != f[i] {
+                    return false;
+                }
+                i += 1;
+            }
+            true
+        }
+    }
+}
+
+/// run-time focus of the native replayer (environment variable SV_FOCUS at run time)
+#[cfg(not(kani))]
+pub fn focus_match_rt(msg: &str) -> bool {
+    match std::env::var("SV_FOCUS") {
+        Ok(f) if !f.is_empty() => msg.starts_with(&f),
+        _ => true,
+    }
+}
+
+/// property-labelled assertion: the label starts with the id of the property it decides
+#[macro_export]
+macro_rules! vassert {
+    ($cond:expr, $msg:literal) => {{
+        #[cfg(kani)]
+        {
+            const ACTIVE: bool = $crate::util::focus_match($msg);
+            if ACTIVE {
+                assert!($cond, $msg);
+            }
+        }
+        #[cfg(not(kani))]
+        {
+            if $crate::util::focus_match_rt($msg) {
+                assert!($cond, $msg);
+            }
+        }
+    }};
+}
+
 /// Vacuity witness: `kani::cover!` under Kani, nothing natively.
 #[macro_export]
 macro_rules! cover {
